@@ -247,7 +247,7 @@ class Client:
         if script is not None:
             self.probe("regen_scripted")
             sel_sites = [x for x in r_new.sites if tuple(x["path"]) in S]
-            un_ref, un_lanes = gfi.match_sites(sel_sites, script.lanes)
+            un_ref, un_lanes = gfi.match_sites(sel_sites, script.lanes, script=script)
             if un_ref:
                 viol.append(V("routing", "selected_drawn_from_conditional_prior",
                               f"regenerate {selections.show(s)}: a selected choice was not freshly drawn at a site consulted "
